@@ -534,6 +534,19 @@ carquet_column_reader_t* carquet_reader_get_column(
     int32_t schema_idx = reader->schema->leaf_indices[column_index];
     const parquet_schema_element_t* schema_elem = &reader->schema->elements[schema_idx];
 
+    /* Callers size their value buffers from the schema; the chunk must store
+     * that type, and a fixed-length type needs a positive length. */
+    if (!schema_elem->has_type ||
+        col_reader->col_meta->type != schema_elem->type ||
+        (schema_elem->type == CARQUET_PHYSICAL_FIXED_LEN_BYTE_ARRAY &&
+         schema_elem->type_length <= 0) ||
+        col_reader->col_meta->num_values < 0) {
+        free(col_reader);
+        CARQUET_SET_ERROR(error, CARQUET_ERROR_INVALID_METADATA,
+            "Column chunk metadata does not match the schema");
+        return NULL;
+    }
+
     col_reader->max_def_level = reader->schema->max_def_levels[column_index];
     col_reader->max_rep_level = reader->schema->max_rep_levels[column_index];
     col_reader->type = col_reader->col_meta->type;
